@@ -129,8 +129,8 @@ def rule_fold(ctx):
             problem = None
             n = 0
             try:
-                for E1 in E1S:
-                    for E2 in E2S:
+                for E1 in ((2, 3, 5, 8) if ctx.tier == 'thorough' else E1S):
+                    for E2 in ((2, 3, 4, 7) if ctx.tier == 'thorough' else E2S):
                         el0 = ElemEval({edges1: E1, edges2: E2}, {})
                         dvals = [el0.ev(d) if not _is_time_dim(d) else 'T' for d in dims]
                         width = el0.ev(shape[1][1]) if shape is not None and shape[0] == 'tuple' else None
